@@ -86,13 +86,16 @@ CHECKS = {
     'C10': dict(
         text="Theorems (Props/C10.v): no accepted schedule contains more than 3*|blocks| evaluations "
              "in one burst, the instability error is raised exactly at the (limit+1)-th attempt, a "
-             "non-idle state always has an enabled step, idle => consistent. The 'acyclic networks "
-             "with few paths are never reported unstable' clause is decided by the monitor on every "
-             "observed run (path sums computed inside Coq) - its unbounded proof is not finished, see "
+             "non-idle state always has an enabled step, idle => consistent; and the converse half: on a "
+             "topologically numbered network whose path count fits into the limit, a burst of set_output "
+             "calls followed by evaluations only can never end with the instability error, whatever the "
+             "evaluation order (block b is evaluated at most 'number of paths ending in b' times: ghost "
+             "counters + induction along the numbering). The monitor evaluates the same classification "
+             "(few_paths, clean burst) on every observed run, see "
              "DESIGN.md. Tie: cyclic networks, event feedback loops and layered acyclic networks run on "
              "the real simulator with a watchdog for runs that never end.",
-        technique="Coq proof (counter invariant over schedules) + trace acceptance and monitor "
-                  "evaluated by vm_compute",
+        technique="Coq proof (counter invariant over schedules; path-count bound by ghost counters) + "
+                  "trace acceptance and monitor evaluated by vm_compute",
         design_ref="DESIGN.md section 6/C10"),
     'C11': dict(
         text="Theorems (Props/C11.v) for every event topology, handler/init script and fuel: every "
